@@ -206,7 +206,9 @@ class Neighbor:
 
         # If graceful-restart is enabled but time is 0, use hold-time
         if self.capability.graceful_restart.is_enabled() and self.capability.graceful_restart.time == 0:
-            self.capability.graceful_restart = GracefulRestartConfig.with_time(int(self.hold_time))
+            # the restart time is a 12 bit field (RFC 4724 3): a hold time above 4095 was masked when packed, so
+            # `hold-time 5000` advertised 904 seconds. The largest value the field holds is what is meant.
+            self.capability.graceful_restart = GracefulRestartConfig.with_time(min(int(self.hold_time), 4095))
 
     def id(self) -> str:
         return f'neighbor-{self.uid}'
